@@ -31,6 +31,10 @@ ASSUMPTIONS = [
 CAPS = [400, None, 50, 5, 2, 1, 0, None]
 
 
+class SweepBudgetExceeded(BaseException):
+    """Raised by the sweep-counting probe function (BaseException: nothing in between may swallow it)."""
+
+
 @st.composite
 def fault_case(draw):
     spec = draw(blocks.system(n_sim=(1, 4), q_hi=60, lags=(0, 2), exos=(0, 1), consts=(0, 1), aliases=(0, 0),
@@ -79,9 +83,13 @@ def fault_case(draw):
 def solve_with_probe(spec, maxtime=None, trace_step=None):
     from sfc_models.equation_solver import EquationSolver
     counts = {}
+    cap_ = 400 if spec['max_iter'] is None else spec['max_iter']
 
     def probe(value, k):
         counts[k] = counts.get(k, 0) + 1
+        if k >= 1 and counts[k] > cap_ + 10:
+            # the solver is well past its own iteration cap in this period: stop it here instead of waiting for ever
+            raise SweepBudgetExceeded(k, counts[k])
         return value
 
     s2 = dict(spec)
@@ -100,6 +108,10 @@ def solve_with_probe(spec, maxtime=None, trace_step=None):
     try:
         es.ParseString(blocks.render(s2))
         es.SolveEquation()
+    except SweepBudgetExceeded as ex:
+        raise Violation('C11/sweeps-exceed-cap', 'period %s: the solver was still sweeping after %d sweeps with an iteration '
+                                                 'cap of %d (fault %s; stopped by the harness)' %
+                        (ex.args[0], ex.args[1], cap_, spec['fault']['kind'] if 'fault' in spec else '-'))
     except Exception as ex:
         return type(ex).__name__, es, ex, counts
     return 'ok', es, None, counts
@@ -322,8 +334,9 @@ def run_invalid_model(spec):
 
 
 FAMILIES = [
-    Family('fault', fault_case, run_fault, quick=1200, thorough=40000),
-    Family('contraction', contraction_case, run_contraction, quick=1000, thorough=40000),
+    Family('fault', fault_case, run_fault, quick=1200, thorough=40000, case_timeout=120, timeout_bucket='C11/no-termination'),
+    Family('contraction', contraction_case, run_contraction, quick=1000, thorough=40000, case_timeout=120,
+           timeout_bucket='C11/no-termination'),
     Family('invalid-names', invalid_name_case, run_invalid_name, quick=1500, thorough=20000),
     Family('invalid-models', invalid_model_case, run_invalid_model, quick=300, thorough=4000),
 ]
